@@ -346,6 +346,15 @@ def _extent(t, isbegin):
                     return b, l, "plain"
                 if isbegin(b):
                     return a, l, "plain"
+    # B + min(n, L - B): the same extent written with the clamp on the amount (B <= L is the underflow obligation of L - B)
+    if t[0] == "bin" and t[1] == "Add":
+        for x, y in ((t[2], t[3]), (t[3], t[2])):
+            y = unref(y)
+            if isbegin(x) and y[0] == "call" and y[1] == "min" and len(y[2]) == 2:
+                for n_, d in ((y[2][0], y[2][1]), (y[2][1], y[2][0])):
+                    d = unref(d)
+                    if d[0] == "bin" and d[1] == "Sub" and isbegin(d[3]):
+                        return n_, d[2], "inner-min"
     return None
 
 
@@ -1110,15 +1119,19 @@ def rule_complete(env, shared):
         Lc = m.canon(r["len_term"])
         bad = None
         n = 0
-        for bi, blk in enumerate(b.blocks):
-            for s in blk["stmts"]:
-                if s["k"] == "assign" and s["rv"]["k"] == "aggregate" and s["rv"].get("variant_name") == "None":
-                    n += 1
-                    fs = [tuple(m.canon(x) if isinstance(x, tuple) else x for x in f) for f in block_facts(ev, ctx, bi)]
-                    okk = any(f[0] == "le" and len(f) == 3 and f[1] == Lc and f[2][0] == "atomic" and f[2][1] == "fetch_add"
-                              for f in fs)
-                    if not okk:
-                        bad = b.file_line(s["loc"])
+        # every way the helper's result can be None (definition sites of the return value, through `?`, match, if/else,
+        # bool::then ...) must lie under LEN <= reserved index
+        from guards import site_cases
+        for bi, cases in sorted((site_cases(ev, ctx, 0, True) or {}).items()):
+            for (K, fs0, _v) in cases:
+                if K != "None":
+                    continue
+                n += 1
+                fs = [tuple(m.canon(x) if isinstance(x, tuple) else x for x in f) for f in fs0]
+                okk = any(f[0] == "le" and len(f) == 3 and f[1] == Lc and f[2][0] == "atomic" and f[2][1] == "fetch_add"
+                          for f in fs)
+                if not okk:
+                    bad = b.file_line(b.term(bi)["loc"])
         if n == 0 or bad:
             out.append(Ob("COMPLETE", key, "viol", bad or b.file_line(),
                           "the reservation helper of %s can return None for a reserved index that is not known to be >= LEN: "
@@ -1136,14 +1149,14 @@ def rule_complete(env, shared):
             else:
                 bad = None
                 n = 0
-                for bi, blk in enumerate(g.blocks):
-                    for s in blk["stmts"]:
-                        if s["k"] == "assign" and s["rv"]["k"] == "aggregate" and s["rv"].get("variant_name") == "None":
-                            n += 1
-                            fs = [tuple(m.canon(x) if isinstance(x, tuple) else x for x in f)
-                                  for f in block_facts(ev, gctx, bi)]
-                            if not any(f[0] == "le" and len(f) == 3 and f[1] == Lc and f[2] == ("param", 2) for f in fs):
-                                bad = g.file_line(s["loc"])
+                for bi, cases in sorted((site_cases(ev, gctx, 0, True) or {}).items()):
+                    for (K, fs0, _v) in cases:
+                        if K != "None":
+                            continue
+                        n += 1
+                        fs = [tuple(m.canon(x) if isinstance(x, tuple) else x for x in f) for f in fs0]
+                        if not any(f[0] == "le" and len(f) == 3 and f[1] == Lc and f[2] == ("param", 2) for f in fs):
+                            bad = g.file_line(g.term(bi)["loc"])
                 if n == 0 or bad:
                     out.append(Ob("COMPLETE", key, "viol", bad or g.file_line(),
                                   "get of %s can return None for an index not known to be >= LEN: a reserved element is "
